@@ -59,6 +59,8 @@ class Scenario:
         if cfg.get('second'):
             # a second user thread offering a job at any moment
             def second():
+                res['second_called_after_close_began'] = bool(
+                    res.get('close_began'))
                 res['second_handle'] = pool.apply_async(tasks.ok, (77,))
                 res['second_state'] = pool._state
                 return 'second-done'
@@ -94,6 +96,7 @@ class Scenario:
                     pool.maintain_pool()
                     time.sleep(0.2)
             elif op == 'close':
+                res['close_began'] = True
                 pool.close()
             elif op == 'join':
                 t0 = self.sched.now
@@ -321,8 +324,15 @@ def c07_oracle(sc):
         return 'a job offered after close() was accepted'
     h2 = r.get('second_handle')
     if h2 is not None and not h2.ready():
-        return ('a job accepted from a second thread while close() was '
-                'running is unresolved after join()')
+        sig = None
+        if not r.get('second_called_after_close_began'):
+            # apply_async had passed its state check before close() began
+            # and queued its task behind close()'s sentinel (F27)
+            sig = 'F27:submit-races-close'
+        return ('a job accepted from a second thread %s is unresolved after '
+                'join()' % ('although close() had already begun'
+                            if sig is None else
+                            'whose apply_async overlapped close()'), sig)
     return None
 
 
@@ -386,8 +396,6 @@ def make_runner(cfg):
 
 def explore_cfg(arg):
     cfg, bound, cap = arg
-    import gc
-    gc.disable()
     from harness import l1
     l1._no_final_gc()
     run = make_runner(cfg)
@@ -403,6 +411,9 @@ def explore_cfg(arg):
         p = stack.pop()
         x = run(p, None)
         explore._account(st, x, p)
+        if st.executions % 250 == 0:
+            import gc
+            gc.collect()          # arena mmaps of finished executions
         if x.violation:
             st.violations.pop()
             found.setdefault((x.violation.split(':')[0][:60],
